@@ -397,8 +397,8 @@ Proof.
   cbn [map combine fst snd]. now rewrite IH.
 Qed.
 
-Lemma unwhiten_dense_spec W cols U : unwhiten_dense W cols = Some U ->
-  length cols = length W /\ Unwhitened W cols U.
+Lemma unwhiten_dense_spec W sc cols U : unwhiten_dense W sc cols = Some U ->
+  length cols = length W /\ Unwhitened W sc cols U.
 Proof.
   unfold unwhiten_dense. destruct (Nat.eqb (length cols) (length W)) eqn:E; [|discriminate].
   apply Nat.eqb_eq in E. intros H; injection H as <-. split; [assumption|]. unfold Unwhitened.
@@ -407,7 +407,7 @@ Proof.
   rewrite seq_nth by exact Hj. cbn [Nat.add]. unfold ucol.
   rewrite map_length, seq_length. split; [reflexivity|]. intros s Hs.
   rewrite (nth_map_lt _ _ 0%nat) by (rewrite seq_length; exact Hs).
-  rewrite seq_nth by exact Hs. cbn [Nat.add]. now apply dotZ_seq.
+  rewrite seq_nth by exact Hs. cbn [Nat.add]. f_equal. now apply dotZ_seq.
 Qed.
 
 Lemma dense_full_spec d r T : dense_full d r = Some T -> Full_template d r T.
@@ -480,7 +480,7 @@ Theorem dense_defined d r cols :
   exists rec, get_template_dense argsort d r = Some rec.
 Proof.
   intros Ecols Hc HW Hsh HP Hpos Hn Hthr Hl. unfold get_template_dense, dense_full. rewrite Ecols.
-  assert (ET : exists T, (if r_unwhiten r then unwhiten_dense (d_wmi d) cols else Some cols) = Some T /\
+  assert (ET : exists T, (if r_unwhiten r then unwhiten_dense (d_wmi d) (d_scale d) cols else Some cols) = Some T /\
                          length T = length (d_pos d)).
   { destruct (r_unwhiten r).
     - unfold unwhiten_dense. rewrite Hc, HW, Nat.eqb_refl. eexists. split; [reflexivity|].
